@@ -113,6 +113,30 @@ func (c *compiler) run(ctx *progCtx, key, root string) (res *compiled) {
 		cnt["rejected_by_thriftgo"]++
 		return res
 	}
+	// Go links (and initialises) only packages somebody imports: import every generated package,
+	// also those of includes nothing refers to
+	var imports []string
+	filepath.Walk(outDir, func(path string, info os.FileInfo, err error) error {
+		if err == nil && !info.IsDir() && strings.HasSuffix(path, ".go") {
+			rel, _ := filepath.Rel(mod, filepath.Dir(path))
+			imp := "drv/" + filepath.ToSlash(rel)
+			for _, x := range imports {
+				if x == imp {
+					return nil
+				}
+			}
+			imports = append(imports, imp)
+		}
+		return nil
+	})
+	src := "package main\n\nimport (\n"
+	for _, imp := range imports {
+		src += fmt.Sprintf("\t_ %q\n", imp)
+	}
+	src += ")\n"
+	if err := os.WriteFile(filepath.Join(mod, "c15_imports.go"), []byte(src), 0o644); err != nil {
+		fatal(err)
+	}
 	b := gendrv.New(mod, c.thriftgo, c.repo)
 	b.Jobs = 2
 	b.Units = []*gendrv.Unit{{Key: key}}
